@@ -350,3 +350,44 @@ Proof.
   split; [vm_compute; reflexivity|]. split; [vm_compute; reflexivity|].
   intro rf. apply float_expr_out_of_range_is_oracle; [vm_compute; discriminate|vm_compute; reflexivity].
 Qed.
+
+(* ---- boolean constants, names, Python class constants ---- *)
+Lemma z_of_dec_py_str_int v : z_of_dec (py_str_int v) = v.
+Proof.
+  destruct (py_str_int_cases v) as [Hp Hn]. destruct (Z.le_gt_cases 0 v) as [Hv|Hv].
+  - rewrite (Hp Hv). pose proof (read_dec_of_N (Z.to_N v) [] I) as HR. rewrite app_nil_r in HR.
+    destruct (dec_of_N_shape (Z.to_N v)) as [c [r [E [Hc _]]]]. rewrite E in HR |- *. unfold z_of_dec.
+    destruct (digit_not_special c Hc) as [_ H45]. apply N.eqb_neq in H45. rewrite H45, HR. cbn [fst]. apply Z2N.id. lia.
+  - rewrite (Hn Hv). unfold z_of_dec. change (45 =? 45)%N with true. cbv iota.
+    pose proof (read_dec_of_N (Z.to_N (- v)) [] I) as HR. rewrite app_nil_r in HR. rewrite HR. cbn [fst]. rewrite Z2N.id; lia.
+Qed.
+
+Theorem bool_literal_denotes : forall b,
+  bool_token_denotes (filter_literal_bool c_lang b) = Some b /\ bool_token_denotes (filter_literal_bool cpp_lang b) = Some b.
+Proof. intros [|]; split; reflexivity. Qed.
+
+Theorem c_full_name_exact : forall m,
+  c_full_name m = Some (tm_full_name m) /\
+  c_full_name_and_version m = Some (tm_full_name m ++ [46%N] ++ py_str_int (tm_major m) ++ [46%N] ++ py_str_int (tm_minor m)).
+Proof.
+  intro m. unfold c_full_name, c_full_name_and_version. split.
+  - cbv -[py_str_int app tm_full_name tm_major tm_minor]. rewrite app_nil_r. reflexivity.
+  - cbv -[py_str_int app tm_full_name tm_major tm_minor]. rewrite app_nil_r. reflexivity.
+Qed.
+
+Theorem py_int_const_denotes : forall z, exists s, py_const_token (CVInt z) = Some s /\ z_of_dec s = z.
+Proof.
+  intro z. exists (py_str_int z). split; [|apply z_of_dec_py_str_int].
+  unfold py_const_token. cbv -[py_str_int app]. rewrite app_nil_r. reflexivity.
+Qed.
+
+Theorem py_float_const_exact : forall n d,
+  py_const_token (CVFrac n d) = Some (py_str_int n ++ [32; 47; 32]%N ++ py_str_int d) /\
+  z_of_dec (py_str_int n) = n /\ z_of_dec (py_str_int d) = d.
+Proof.
+  intros n d. split; [|split; apply z_of_dec_py_str_int].
+  unfold py_const_token. cbv -[py_str_int app]. rewrite app_nil_r. reflexivity.
+Qed.
+
+Theorem py_bool_const_exact : forall b, py_const_token (CVBool b) = Some (if b then s_True else s_False).
+Proof. intros [|]; reflexivity. Qed.
